@@ -42,10 +42,25 @@ func H_C01_LineStep() {
 	price := skAmt("price", pexp)
 	qty := skAmt("qty", qexp)
 	l := &Line{Quantity: qty, Item: &org.Item{Name: "x", Price: &price}}
-	hasDisc := vrt.Choice("disc", 2) == 1
-	if hasDisc {
+	// discounts: none / 5.5 % / 5.5 % then 5 % / fixed then 5.5 % / 5.5 % of an explicit base
+	discKind := vrt.Choice("disc", 5)
+	var dfix, dbase num.Amount
+	switch discKind {
+	case 1:
 		p := skP10 // 5.5 %
 		l.Discounts = []*LineDiscount{{Percent: &p}}
+	case 2:
+		p, q := skP10, skP5
+		l.Discounts = []*LineDiscount{{Percent: &p}, {Percent: &q}}
+	case 3:
+		p := skP10
+		dfix = skAmt("dfix", ce)
+		l.Discounts = []*LineDiscount{{Amount: dfix}, {Percent: &p}}
+	case 4:
+		p := skP10
+		dbase = skAmt("dbase", ce)
+		b := dbase
+		l.Discounts = []*LineDiscount{{Percent: &p, Base: &b}}
 	}
 	chargeKind := vrt.Choice("charge", 3)
 	var rate num.Amount
@@ -82,11 +97,31 @@ func H_C01_LineStep() {
 	vrt.Known("C01-currency-rule-double-rounding", rule == tax.RoundingRuleCurrency && pexp > ce && qexp > 0)
 	vrt.Assert(l.Sum.Value() == wantSum, "line-sum-is-rounded-exact-product")
 	total := l.Sum.Value()
-	if hasDisc {
-		d := l.Discounts[0]
+	pctOfSum := func(d *LineDiscount, mil int64, what string) {
 		vrt.Assert(d.Amount.Exp() == w, "discount-at-working-precision")
-		vrt.Assert(d.Amount.Value() == c01RHA(l.Sum.Value()*55, 1000), "discount-is-percentage-of-line-sum")
+		vrt.Assert(d.Amount.Value() == c01RHA(l.Sum.Value()*mil, 1000), what)
 		total -= d.Amount.Value()
+	}
+	switch discKind {
+	case 1:
+		pctOfSum(l.Discounts[0], 55, "discount-is-percentage-of-line-sum")
+	case 2:
+		pctOfSum(l.Discounts[0], 55, "discount-is-percentage-of-line-sum")
+		pctOfSum(l.Discounts[1], 50, "second-discount-is-percentage-of-line-sum-not-of-the-running-total")
+	case 3:
+		vrt.Assert(vrt.And(l.Discounts[0].Amount.Value() == dfix.Value(), l.Discounts[0].Amount.Exp() == ce), "fixed-line-discount-kept")
+		total -= dfix.Value() * c01Pow10[w-ce]
+		pctOfSum(l.Discounts[1], 55, "discount-after-fixed-is-percentage-of-line-sum")
+	case 4:
+		// an explicit base is raised to currency+2 decimals (precise) or kept at the currency's (currency rule)
+		d := l.Discounts[0]
+		be := ce
+		if rule == tax.RoundingRulePrecise {
+			be = ce + 2
+		}
+		vrt.Assert(d.Amount.Exp() == be, "base-discount-at-base-precision")
+		vrt.Assert(d.Amount.Value() == c01RHA(dbase.Value()*c01Pow10[be-ce]*55, 1000), "discount-is-percentage-of-explicit-base")
+		total -= d.Amount.Value() * c01Pow10[w-be]
 	}
 	switch chargeKind {
 	case 1:
